@@ -43,7 +43,11 @@ def main() -> int:
         result: dict = {}
 
         async def run_case(loop, case=case, result=result):  # type: ignore[no-untyped-def]
-            server_mod.time = lambda: env.get("epoch", 0.0) + 1_750_000_000.0 + loop.time()
+            # the wall clock the server reads: epoch + virtual time, stepped BACK by env["steps_back"] seconds before every
+            # k-th request (NTP correction / VM resume); forward steps are not injected: more than 10 s forward legitimately
+            # looks like inactivity to the server
+            wall = {"off": 0.0}
+            server_mod.time = lambda: env.get("epoch", 0.0) + 1_750_000_000.0 + loop.time() + wall["off"]
             params = RandomUDSServer.RandomnessParameters(**case["params"])
             behavior = UDSServer.Behavior(**case["switches"])
             client = None
@@ -92,6 +96,8 @@ def main() -> int:
                 gap = (op.get("gap") or 0) * env.get("pace", 1.0)
                 if gap:
                     await asyncio.sleep(min(gap, 9.0))
+                if env.get("steps_back") and n % 3 == 2:
+                    wall["off"] -= float(env["steps_back"])
                 if env.get("pollute") is not None:
                     random.random()
                 if "dyn" in op:
